@@ -97,8 +97,19 @@ WideB(p) ==
     drain_cap |-> 30000,
     ops |-> << <<"add", 1>>, <<"publish">>, <<"drain">> >> ]
 
-SessParams == CASE Family = "wide" -> WideP [] Family = "small" -> SmallP [] Family = "mem" -> MemP [] Family = "clean" -> CleanP [] Family = "car" -> CarP [] Family = "exp" -> ExpP
-SessBuild(p) == CASE Family = "wide" -> WideB(p) [] Family = "small" -> SmallB(p) [] Family = "mem" -> MemB(p) [] Family = "clean" -> CleanB(p) [] Family = "car" -> CarB(p) [] Family = "exp" -> ExpB(p)
+\* medium sessions (60 - 150 packets): several blocks of unequal length, real parity budgets, interleaving; used with
+\* pseudo-random loss and duplication (family rloss)
+MedShapes == << <<1000, 16, 10>>, <<5000, 64, 64>>, <<777, 7, 25>>, <<2041, 40, 13>> >>
+MedP == (1..Len(MedShapes)) \X {0, 5, 129, 6, 1} \X {2, 8} \X {1, 3} \X BOOLEAN \X {1, 2}
+MedB(p) ==
+  LET sh == MedShapes[p[1]] sc == p[2] IN
+  [ fam |-> "medium",
+    cfg |-> [scheme |-> 0, E |-> BigE, B |-> 8, interleave |-> p[4], queues |-> << <<0, 1>> >>, mode |-> "full"],
+    objs |-> << [clen |-> sh[1], oti |-> Oti(sc, sh[2], sh[3], IF sc = 0 THEN 0 ELSE p[3], p[5]), count |-> p[6], md5 |-> TRUE] >>,
+    ops |-> << <<"add", 1>>, <<"publish">>, <<"drain">> >> ]
+
+SessParams == CASE Family = "medium" -> MedP [] Family = "wide" -> WideP [] Family = "small" -> SmallP [] Family = "mem" -> MemP [] Family = "clean" -> CleanP [] Family = "car" -> CarP [] Family = "exp" -> ExpP
+SessBuild(p) == CASE Family = "medium" -> MedB(p) [] Family = "wide" -> WideB(p) [] Family = "small" -> SmallB(p) [] Family = "mem" -> MemB(p) [] Family = "clean" -> CleanB(p) [] Family = "car" -> CarB(p) [] Family = "exp" -> ExpB(p)
 
 -----------------------------------------------------------------------------
 (* extreme but well-formed packets, built with the wire-format specification (family c04x):                   *)
@@ -166,6 +177,8 @@ ChanK(s) ==
     [] Family = "clean"   -> BOOLEAN \X BOOLEAN
     [] Family = "c04"     -> (0..NP(s)) \X ({<<"fuzzhdr", i>> : i \in 1..NP(s)} \cup {<<"xmlfdt", v>> : v \in 0..29}
                                            \cup {<<"mutseq", x>> : x \in 1..6} \cup {<<"garbage", 1>>})
+    \* pseudo-random loss / duplication: seed x loss rate (percent) x duplication rate (percent)
+    [] Family = "rloss"   -> (1..12) \X {3, 10, 25, 45} \X {0, 15}
     [] Family = "c04x"    -> (1..Len(XSchemes)) \X (1..Len(XB)) \X (1..Len(XE))
     [] Family = "mem"     -> ({"nofdt", "missing", "fdtfirst", "all"} \X {1, 3, 10} \X {100, 400, 2000} \X {0, 1, 2} \X {0, -1} \X {0, -1})
                              \cup ({"refresh"} \X {1} \X {400, 2000} \X {0, 2} \X {80} \X {-1})
@@ -190,6 +203,11 @@ ChanBuild(s, k) ==
                                         \o (IF k[5] = "fwd" /\ k[4] < n /\ k[4] % 2 = 0 THEN << <<"d">> >> ELSE <<>>)]
     [] Family = "clean"   -> [sid |-> sid, fam |-> "clean", rcfg |-> [once |-> k[1]], w |-> [md5 |-> k[2]], sched |-> << <<"seq", 1, n>> >>]
     [] Family = "c04"     -> [sid |-> sid, fam |-> "c04", prefix |-> k[1], adv |-> k[2]]
+    [] Family = "rloss"   ->
+         \* deterministic hash of (seed, packet index) in 0..99; the FDT packets are lost like any other
+         LET H(a, i) == (((a * 7919 + i * 104729 + i * i * 31 + a * i * 977) % 10007) * 100) \div 10007
+             mult(i) == IF H(k[1], i) < k[2] THEN 0 ELSE IF H(k[1] + 50, i) < k[3] THEN 2 ELSE 1
+         IN [sid |-> sid, fam |-> "dups", loss |-> k[2], dup |-> k[3], seed |-> k[1], sched |-> MaskOps([i \in 1..n |-> mult(i)], 1, n)]
     [] Family = "c04x"    -> [sid |-> sid, fam |-> "c04x", prefix |-> 0, what |-> <<XSchemes[k[1]], XB[k[2]], XE[k[3]]>>,
                               adv |-> <<"rawset", XSet(XSchemes[k[1]], XB[k[2]], XE[k[3]])>>]
     [] Family = "mem"     ->
